@@ -6,6 +6,7 @@ structure-level mutations that keep embedded fragments well-formed) is re-parsed
 """
 import re
 from vlib import common, xgen, soup, xform
+from vlib.model import kinds_of
 
 CORE = {"From": "from", "TryFrom": "try_from", "Into": "into", "TryInto": "try_into"}
 O2O = {"IntoExisting": "into_existing", "TryIntoExisting": "try_into_existing"}
@@ -139,7 +140,21 @@ def run(tier):
     g = xgen.G(common.rng_for("C17", tier))
     nvalid, nodd = (1500, 6000) if tier == "quick" else (40000, 200000)
     items = [xform.respell(xgen.gen(g), g, g.pick(["bare", "mixed"])) for _ in range(nvalid)]
-    items += [soup.mutate(g, xgen.gen(g), nmut=g.r.randint(1, 2), safe=True, ops=soup.ODD_OPS) for _ in range(nodd)]
+    def coherent(it):
+        # a unit struct says nothing about the counterpart's form: an Into instruction that has ghosts to place needs a hint (README "Unit structs");
+        # a mutation that re-targets the ghosts to a hint-less counterpart leaves the documented domain
+        if it.kind == "struct" and it.shape == "unit":
+            for t in it.attrs:
+                if t.kind == "trait" and not t.f.get("hint") and any(k in ("owned_into", "ref_into") for k in kinds_of(t.name)):
+                    if any(a.kind == "ghosts" and a.f.get("entries") and (a.container() is None or xform.cpkey(a.container()) == xform.cpkey(t.f["ty"])) for a in it.attrs):
+                        return False
+        return True
+    odd = []
+    while len(odd) < nodd:
+        x = soup.mutate(g, xgen.gen(g), nmut=g.r.randint(1, 2), safe=True, ops=soup.ODD_OPS)
+        if coherent(x):
+            odd.append(x)
+    items += odd
     srcs = [it.render() for it in items]
     accepted = 0
     for backend in ("s1", "s2"):
